@@ -287,6 +287,43 @@ pub fn check_trait<S: Scheme>(scn: &Scn, ctx: &mut CaseCtx) -> Result<(), Failur
             }
         }
     }
+    // the query of ONE polynomial of a shared point label moved to another point (the point label and
+    // the claimed value stay): the statement now claims p(z2) = p(z). A verifier may refuse the malformed
+    // query set or evaluate the claim, but it may not accept - in particular not by looking the value
+    // up under the query's own point while checking the proof at the label's point.
+    if g.polys.len() >= 2 {
+        let p1 = [sess.polys[pi].polynomial()];
+        let v1 = [sess.true_value(pi, &g.point)];
+        if let Some(z2) = false_point::<S>(info, &p1, &v1, &g.point, sel >> 50) {
+            let conflict = sess.groups.iter().any(|gg| gg.point == z2 && gg.polys.contains(&pi));
+            if conflict {
+                ctx.label("moved_point_conflict_skipped");
+            } else {
+                let mut q2 = std::collections::BTreeSet::new();
+                for (l, (pl, z)) in qs.iter() {
+                    if *l == plabel && *pl == g.label {
+                        q2.insert((l.clone(), (pl.clone(), z2.clone())));
+                    } else {
+                        q2.insert((l.clone(), (pl.clone(), z.clone())));
+                    }
+                }
+                let mut e2 = evals.clone();
+                let still_queried_at_z = sess.groups.iter().enumerate().any(|(i, gg)| i != gi && gg.point == g.point && gg.polys.contains(&pi));
+                if !still_queried_at_z {
+                    e2.remove(&(plabel.clone(), g.point.clone()));
+                }
+                e2.insert((plabel.clone(), z2.clone()), v1[0]);
+                let r = sess.batch_check(sess.verifier_comms(), &q2, &e2, &bp, &mut sess.sponge(), sel);
+                ctx.label("one_query_of_a_shared_point_label_moved");
+                ctx.label_if(g.polys.first() != Some(&pi), "moved_query_not_first_in_label");
+                if !still_queried_at_z {
+                    expect_reject(ctx, P, S::NAME, "batch_check", "one_query_moved", &r, || {
+                        format!("query of {plabel} under point label {} moved to another point, value kept", g.label)
+                    })?;
+                }
+            }
+        }
+    }
     // commitment of pi replaced
     {
         let q = other_poly::<S>(info, sess.polys[pi].polynomial(), &g.point, sel >> 52);
